@@ -11,7 +11,7 @@
  R6 quotes        every path through the string-literal printer emits the opening and the closing quote
 """
 import re
-from ir import walk, strip, expr_str
+from ir import walk, strip, expr_str, access_path
 from engines import flatten_switch, known_facts
 
 PID = "C07"
@@ -417,7 +417,8 @@ def r2_spelling(prog, res, gr, built):
 
 
 # --------------------------------------------------------------------------- R3
-IDENT_RE = re.compile(r"^[A-Za-z][A-Za-z0-9_]*$")
+IDENT_RE = re.compile(r"^[A-Za-z][A-Za-z0-9_]*$"
+    " (R11) an optional part of a construct is printed whenever it is present: for every pointer member path used by a printer function, the disjunction of the guards of its uses must not become unsatisfiable through the *presence* of a sibling pointer member of the same object when it is satisfiable with that sibling absent (`if( l->while_expr ) .. else if( l->until_expr ) ..` prints UNTIL only instead of WHILE, although the parser stores both).")
 
 
 def r3_placeholders(prog, res, gr):
@@ -1086,6 +1087,129 @@ def r10_group_key(prog, res):
             "so the printed declaration is not the one that was read" % (desc, "(something differs)" if any(bad[1][("prev", d_)] != bad[1][("cur", d_)] for d_ in names) else "only if something differs", bad[0]))
 
 
+def r11_optional_parts_independent(prog, res):
+    """The parser fills the optional parts of a construct independently of each other (a REPEAT may carry an increment, a WHILE and an
+    UNTIL control all at once; an entity a supertype constraint and a subtype list).  A part that is present must be printed whatever
+    its siblings are.  For every pointer member path F = o->...->f that a printer function passes to an emitting call: take the
+    disjunction, over all such call sites in the function, of the conjunction of their enclosing conditions; with `F is non-null` set
+    true, and every condition that is not a nullness test of a *sibling* pointer member of the same object left free (kind dispatch,
+    first-time flags, list iteration), the disjunction must be satisfiable for every combination of the siblings being null / non-null - more exactly, no sibling's *presence* may make it unsatisfiable when its absence does not.
+    `if( l->while_expr ) ... else if( l->until_expr ) ...` fails it: with while_expr present there is no way to reach the UNTIL emission."""
+    from engines import call_args as _args, enclosing_conditions, is_null_const
+    import itertools
+
+    def atomize(c, atoms):
+        """-> nested tuple formula over atom names"""
+        c = strip(c)
+        while c is not None and c["k"] in ("Paren", "Cast") and c.get("ch") and "val" not in c:
+            c = strip(c["ch"][0])
+        if c is None:
+            return ("atom", "?")
+        if c["k"] == "Unary" and c.get("op") == "!":
+            return ("not", atomize(c["ch"][0], atoms))
+        if c["k"] == "Binary" and c.get("op") in ("&&", "||"):
+            return ("and" if c["op"] == "&&" else "or", atomize(c["ch"][0], atoms), atomize(c["ch"][1], atoms))
+        if c["k"] == "Binary" and c.get("op") in ("==", "!="):
+            l, r = c["ch"]
+            if is_null_const(r) or is_null_const(l):
+                x = atomize(l if is_null_const(r) else r, atoms)
+                return ("not", x) if c["op"] == "==" else x
+        if "val" in c and isinstance(c["val"], int):
+            return ("const", bool(c["val"]))
+        ap = access_path(c) if c["k"] == "Member" else None
+        key = "P:" + ap if ap else "X:" + expr_str(c)
+        atoms[key] = c
+        return ("atom", key)
+
+    def ev(fm, asg):
+        """three-valued: True / False / None (depends on a free atom)"""
+        t = fm[0]
+        if t == "const":
+            return fm[1]
+        if t == "atom":
+            return asg.get(fm[1])
+        if t == "not":
+            v = ev(fm[1], asg)
+            return None if v is None else not v
+        a, b = ev(fm[1], asg), ev(fm[2], asg)
+        if t == "and":
+            if a is False or b is False:
+                return False
+            return True if a is True and b is True else None
+        if a is True or b is True:
+            return True
+        return False if a is False and b is False else None
+
+    n = 0
+    nsib = 0
+    for f in prog.all_functions():
+        if f.component != "exppp":
+            continue
+        sites = {}
+        for m in f.walk():
+            # every use of a pointer member path outside a controlling condition: call argument, initialiser of the list-iteration
+            # macros, right-hand side
+            if m["k"] != "Member" or "*" not in f.ty(m):
+                continue
+            par = f.parent.get(m["i"])
+            if par is not None and par["k"] == "Member":
+                continue
+            ap = access_path(m)
+            if not ap or "." not in ap:
+                continue
+            in_cond = False
+            child = m
+            for a in f.ancestors(m):
+                ch = a.get("ch") or []
+                if (a["k"] in ("If", "While", "Cond", "Do") and ch and ch[0] is child) or (a["k"] == "For" and len(ch) > 1 and ch[1] is child) or \
+                        (a["k"] == "Binary" and a.get("op") in ("&&", "||")) or (a["k"] == "Unary" and a.get("op") == "!"):
+                    in_cond = True
+                    break
+                if a["k"] == "Assign" and ch and ch[0] is child:
+                    in_cond = True      # a store into the member, not a use of the part
+                    break
+                child = a
+            if not in_cond:
+                sites.setdefault(ap, []).append(m)
+        for ap, calls in sorted(sites.items()):
+            atoms = {}
+            guards = []
+            for c in calls:
+                g = ("const", True)
+                for cond, br in enclosing_conditions(f, c):
+                    x = atomize(cond, atoms)
+                    g = ("and", g, x if br == "T" else ("not", x))
+                guards.append(g)
+            base = ap.split(".")[0]
+            sibs = sorted(k for k, nd in atoms.items() if k.startswith("P:") and k[2:] != ap and k[2:].split(".")[0] == base and "*" in f.ty(nd))
+            n += 1
+            if not sibs:
+                continue
+            nsib += 1
+            bad = None
+            for si, sib in enumerate(sibs):
+                others = sibs[:si] + sibs[si + 1:]
+                for vals in itertools.product((True, False), repeat=len(others)):
+                    asg = dict(zip(others, vals))
+                    asg["P:" + ap] = True
+                    # with the sibling absent the part can be printed (some guard not definitely false; other conditions are free),
+                    # with the sibling present it cannot: the part is printed only *instead of* its sibling.  (The converse - printed
+                    # only together with a sibling - is how the printers select a kind, e.g. inverse attributes by inverse_symbol.)
+                    if any(ev(g, dict(asg, **{sib: False})) is not False for g in guards) and \
+                            all(ev(g, dict(asg, **{sib: True})) is False for g in guards):
+                        bad = {sib: True}
+                        break
+                if bad:
+                    break
+            res.add("R11.optional_parts_independent", "R11|%s|%s|%s" % (f.relfile(), f.name, ap.split(":", 1)[-1]), f.where(calls[0]), bad is None,
+                    "`%s` is printed whenever it is present, whatever its sibling parts are" % ap.split(":", 1)[-1] if bad is None else
+                    "%s prints `%s` only when %s: a construct that carries both parts loses this one in the output, and the printed schema "
+                    "means something else" % (f.name, ap.split(":", 1)[-1],
+                                              " and ".join("`%s` is absent" % (k[2:].split(":", 1)[-1],) for k in bad)))
+    res.info["r11_emitted_member_paths"] = n
+    res.floor("R11.optional_parts_independent", "printed member paths guarded by a sibling's presence", nsib, 3)
+
+
 def run(prog, res, tier):
     gr = Grammar(prog, res)
     if not gr.ok:
@@ -1103,3 +1227,4 @@ def run(prog, res, tier):
     r8_quote_escape(prog, res)
     r9_parameter_list_guarded(prog, res)
     r10_group_key(prog, res)
+    r11_optional_parts_independent(prog, res)
